@@ -231,7 +231,9 @@ int main(int argc, char** argv)
   spec.bounds_quick = "unit-square-quad, levels '3 1' / '3 0' / multi-layered '4 2:1 0', P in {1,2,3,4}(+6,8 default schedule only), Lagrange1 and Lagrange2; <= 1 deviation for P <= 4 capped at 300 executions per case and mode";
   spec.bounds_thorough = "as quick plus P in {16}, levels '5 3:2 1:1 0', <= 1 deviation uncapped for P <= 4";
   spec.assumptions = {"MPI behaves as modelled by engine/minimpi", "partitioner: the deterministic 2-level/naive partitioners of the control layer (no third-party partitioner, genetic partitioner off)",
-    "equality with the one-process run is required up to 1e-8 relative (iteration counts exactly)"};
+    "equality with the one-process run is required up to 1e-8 relative (iteration counts exactly)",
+    "coverage audit, not exercised: ScalarCombinedSystemLevel, the voxel based assembly entry points of control/scalar_basic.hpp (assemble_laplace_voxel_based, asm_transfer_voxel_*; subject of C16), "
+    "system level convert() to other data types, external / genetic / third-party partitioners of PartiDomainControl, the argument help texts"};
   spec.deadline_quick_s = 170; spec.deadline_thorough_s = 1500;
 
   return verif::run(spec, argc, argv, [&](verif::Ctx& c)
